@@ -323,7 +323,15 @@ impl Interval {
         } else {
             let stride = match (self.stride, other.stride) {
                 (0, _) => other.stride,
-                (_, 0) => self.stride << other.bytesize().as_bit_length(),
+                (_, 0) => {
+                    let shift = other.bytesize().as_bit_length();
+                    if shift < 64 && self.stride.leading_zeros() as usize >= shift {
+                        self.stride << shift
+                    } else {
+                        // The shifted stride does not fit into 64 bits.
+                        1
+                    }
+                }
                 _ => 1u64 << other.stride.trailing_zeros(),
             };
             Interval {
